@@ -31,3 +31,4 @@ import RenetVerif.Props.SrcTieConnSend
 import RenetVerif.Props.SrcTieConnRecv
 import RenetVerif.Props.SrcTieServer
 import RenetVerif.Props.SrcTieNcCodec
+import RenetVerif.Props.SrcTieNcServerQuery
